@@ -588,6 +588,21 @@ impl<'a> SearchGen<'a> {
 }
 
 /// Wrap the whole body in `dfs { ... }`.
+/// `dfs { .. }` around the body, written as one clause `[g1, g2, ..]` (k = 0), one clause per goal
+/// (k = 1), or two clauses split at position `k - 1` (k >= 2): all denote the same conjunction.
+pub fn dfs_wrapped_split(p: &Program, k: usize) -> Program {
+    let n = p.body.len();
+    let clauses: Vec<Vec<G>> = if k == 0 || n < 2 {
+        vec![p.body.clone()]
+    } else if k == 1 {
+        p.body.iter().map(|g| vec![g.clone()]).collect()
+    } else {
+        let cut = 1 + (k - 2) % (n - 1);
+        vec![p.body[..cut].to_vec(), p.body[cut..].to_vec()]
+    };
+    Program { rels: p.rels.clone(), qvars: p.qvars.clone(), body: vec![G::Dfs(clauses)] }
+}
+
 pub fn dfs_wrapped(p: &Program) -> Program {
     Program { rels: p.rels.clone(), qvars: p.qvars.clone(), body: vec![G::Dfs(vec![p.body.clone()])] }
 }
